@@ -582,6 +582,35 @@ def ctx_ok(s):
 import stone.backends.python_rsrc.stone_serializers as ss
 
 
+def ctx_ok_r(s):
+    """ctx_ok with redaction either requested or not (C13)"""
+    return (isinstance(s.caller_permissions, ss.CallerPermissionsDefault)
+            and s._old_style is False and s._for_msgpack is False and isinstance(s.should_redact, bool)
+            and s._alias_validators == {})
+
+
+def redactor_ok(t):
+    """the _redact slot, when the generator filled it, holds a redactor"""
+    return not hasattr(t, '_redact') or isinstance(t._redact, (bv.HashRedactor, bv.BlotRedactor))
+
+
+@spec(opaque=True, returns='val')
+def redact_apply(r, v):
+    """what the redactor makes of a value (HashRedactor / BlotRedactor bodies are string / regex / md5
+    code: trusted, not verified; compared natively)"""
+    return r.apply(v)
+
+
+def redacted(r, value):
+    """C13: with redaction requested, a value whose validator carries a redactor is replaced by the
+    redactor's output -- item by item for a list, value by value for a map"""
+    if isinstance(value, list):
+        return [redact_apply(r, v) for v in value]
+    if isinstance(value, dict):
+        return {k: redact_apply(r, v) for k, v in value.items()}
+    return redact_apply(r, value)
+
+
 def b64_text(v):
     """Bytes: Base64-encoded string"""
     return base64.b64encode(v).decode('ascii')
